@@ -210,7 +210,7 @@ Section Obj.
 
   (* ---- abstract_mask.Mask.pixel_scale: the loop only logs a warning; returns pixel_scales[0] ---- *)
   Definition pixel_scale (pixel_scales : list V) : V := hd zero pixel_scales.
-  (* abstract_mask.Mask.pixel_scale_header (as repaired by fixes/C16_anisotropic_pixel_scale_header.diff):
+  (* abstract_mask.Mask.pixel_scale_header (as repaired by /repo commit 770955c = fixes/C16_anisotropic_pixel_scale_header.diff):
      `if all(pixel_scale == self.pixel_scales[0] for pixel_scale in self.pixel_scales): return {"PIXSCALE": self.pixel_scales[0]}`
      else `{"PIXSCALEY": self.pixel_scales[0], "PIXSCALEX": self.pixel_scales[1]}` *)
   Definition pixel_scale_header (pixel_scales : list V) : header V :=
@@ -339,7 +339,7 @@ Section Obj.
     Array1D_new values (map (fun _ => false) values) scale.
   (* Array1D.native = Array1D(values=self, mask=self.mask, store_native=True) *)
   Definition Array1D_native (a : array1d) : list V := convert_array_1d (b_vals a) (b_mask a) true.
-  (* Array1D.hdu_for_output (as repaired by fixes/C16_array1d_hdu_flip.diff): array_1d_util.hdu_for_output_from, no flip;
+  (* Array1D.hdu_for_output (as repaired by /repo commit 9d3d532 = fixes/C16_array1d_hdu_flip.diff): array_1d_util.hdu_for_output_from, no flip;
      the [flip] argument (the config flag in force) is kept to show that it has no influence *)
   Definition Array1D_hdu_for_output (flip : bool) (a : array1d) : hdu V V :=
     hdu_for_output_from_1d (Array1D_native a) (pixel_scale_header [b_scale a]).
